@@ -403,6 +403,15 @@ def run(case):
                 # counters are only comparable when every epoch ran to its end
                 comparable = not use_sim or all(
                     ep[0] == 'exhausted' for ep in obsB['epochs'])
+                # a memory cache below a multi-worker prefetch: two workers that
+                # miss the same index at the same time both fetch it, so the
+                # number of fetches below the cache depends on the schedule (and
+                # the wrapped and the reference run are scheduled independently)
+                sts_ = desc['stages']
+                for j_, s_ in enumerate(sts_):
+                    if s_['op'] == 'cache' and any(
+                            x['op'] == 'prefetch' and pargen.is_pool(x) for x in sts_[j_ + 1:]):
+                        comparable = False
                 if not comparable:
                     pass
                 elif [x[0] for x in nw] != [x[0] for x in nr]:
